@@ -761,34 +761,42 @@ impl Runner {
         }
     }
 
-    fn record_violation<C: CaseIo>(&mut self, name: &str, c: C, f: Fail, judge: &(dyn Fn(&C, &mut Stats) -> Verdict + Sync), pre: Option<C>) {
-        let (c, f) = self.shrink_case(c, f, judge);
+    fn record_violation<C: CaseIo>(&mut self, name: &str, c: C, f: Fail, judge: &(dyn Fn(&C, &mut Stats) -> Verdict + Sync), pre: Option<(C, C)>) {
+        let (mut c, mut f) = self.shrink_case(c, f, judge);
         // Does the case fail on its own? The code under test is supposed to be stateless; if the failure needs the case
-        // that the same worker judged just before it (hidden state carried from call to call), that case goes into the
-        // replay file as well, so that the replay reproduces.
-        let fresh = |cases: Vec<C>| -> bool {
+        // that the same worker judged just before it (hidden state carried from call to call), the replay file holds the
+        // ORIGINAL failing case together with that predecessor, so that the replay reproduces.
+        let fresh = |cases: Vec<C>| -> Option<Fail> {
             std::thread::scope(|s| {
                 s.spawn(move || {
                     let mut st = Stats { frozen: true, ..Stats::default() };
-                    let mut last_failed = false;
+                    let mut last: Option<Fail> = None;
                     for x in &cases {
-                        last_failed = !matches!(guard(|| judge(x, &mut st)), Ok(Ok(())));
+                        last = match guard(|| judge(x, &mut st)) {
+                            Ok(Ok(())) => None,
+                            Ok(Err(f)) => Some(f),
+                            Err(p) => Some(Fail::new("harness-panic", "", "", "judge returns", p)),
+                        };
                     }
-                    last_failed
+                    last
                 })
                 .join()
-                .unwrap_or(true)
+                .unwrap_or(None)
             })
         };
         let mut preceded_by: Vec<Value> = Vec::new();
         let mut note = "";
-        if !fresh(vec![c.clone()]) {
-            match pre {
-                Some(p) if fresh(vec![p.clone(), c.clone()]) => {
-                    preceded_by.push(p.to_json());
-                    note = "fails only after the preceding case has been judged on the same thread (state carried between calls)";
+        if fresh(vec![c.clone()]).is_none() {
+            note = "did not fail again when judged alone on a fresh thread: it depends on earlier calls made by the same worker";
+            if let Some((p, orig)) = pre {
+                if let Some(f2) = fresh(vec![p.clone(), orig.clone()]) {
+                    if !self.is_known(&f2.sig) {
+                        preceded_by.push(p.to_json());
+                        c = orig;
+                        f = f2;
+                        note = "fails only after the preceding case has been judged on the same thread (state carried between calls); not shrunk";
+                    }
                 }
-                _ => note = "did not fail again when judged alone on a fresh thread: it depends on earlier calls made by the same worker",
             }
         }
         let dir = format!("{}/replays", self.verif_dir);
@@ -969,7 +977,7 @@ impl Runner {
         let shards = THREADS.min(cases.max(1) as usize).max(1);
         let per = (cases + shards as u64 - 1) / shards as u64;
         let stop = AtomicBool::new(false);
-        let results: Mutex<Vec<(usize, Stats, Option<(C, Fail)>, Option<C>)>> = Mutex::new(Vec::new());
+        let results: Mutex<Vec<(usize, Stats, Option<(C, Fail)>, Option<(C, C)>)>> = Mutex::new(Vec::new());
         let known: Vec<String> = self.known.iter().filter(|k| k.property == self.prop).map(|k| k.sig.clone()).collect();
         let (seed, prop) = (self.seed, self.prop);
         let journal = self.journal;
@@ -1026,7 +1034,7 @@ impl Runner {
                     let last_fail: std::cell::RefCell<Option<Fail>> = std::cell::RefCell::new(None);
                     // the tape judged just before the current one, and the one that preceded the first failure
                     let prev_tape: std::cell::RefCell<Option<Vec<u32>>> = std::cell::RefCell::new(None);
-                    let pre_at_fail: std::cell::RefCell<Option<Vec<u32>>> = std::cell::RefCell::new(None);
+                    let pre_at_fail: std::cell::RefCell<Option<(Vec<u32>, Vec<u32>)>> = std::cell::RefCell::new(None);
                     let res = runner.run(&strat, |tape| {
                         let mut st = st.borrow_mut();
                         let st = &mut *st;
@@ -1053,7 +1061,7 @@ impl Runner {
                             }
                             Err(f) => {
                                 if !st.frozen {
-                                    *pre_at_fail.borrow_mut() = prev_tape.borrow().clone();
+                                    *pre_at_fail.borrow_mut() = prev_tape.borrow().clone().map(|p| (p, tape.clone()));
                                 }
                                 if known.iter().any(|k| *k == f.sig) {
                                     if !st.frozen {
@@ -1093,14 +1101,14 @@ impl Runner {
                         progress[shard].store(u64::MAX, Ordering::Relaxed);
                     }
                     finished.fetch_add(1, Ordering::Relaxed);
-                    let pre = if found.is_some() { pre_at_fail.into_inner().map(|t| gen(&mut Tape::new(&t))) } else { None };
+                    let pre = if found.is_some() { pre_at_fail.into_inner().map(|(p, o)| (gen(&mut Tape::new(&p)), gen(&mut Tape::new(&o)))) } else { None };
                     results.lock().unwrap().push((shard, st, found, pre));
                 });
             }
         });
         let mut stage = Stats::default();
         let mut first: Option<(C, Fail)> = None;
-        let mut pre: Option<C> = None;
+        let mut pre: Option<(C, C)> = None;
         // merge in shard order so that samples and the reported failure do not depend on thread timing
         let mut shard_results = results.into_inner().unwrap();
         shard_results.sort_by_key(|x| x.0);
